@@ -13,6 +13,9 @@ import (
 	"regexp"
 	"strings"
 
+	"github.com/jsightapi/jsight-schema-go-library/notations/jschema"
+	"github.com/jsightapi/jsight-schema-go-library/rules/enum"
+
 	"verif/internal/gen"
 	"verif/internal/lib"
 	"verif/internal/model"
@@ -215,6 +218,19 @@ func c02Run(c *mon.Ctx, unit int) {
 			}
 			variants = append(variants, vb)
 		}
+		// the enum as a named rule whose text carries lines of its own between the values, one
+		// rule object given to two schema objects: the second one must judge like the inline list
+		if e := sc.Node.Rule("enum"); e != nil && len(e.List) > 1 && e.Raw == "" && k%2 == 0 {
+			if nb := c02SharedNamedEnum(sc.Node, e, k); nb != nil {
+				if !nb.ok {
+					c.Violate("enum-named", map[string]any{"schema": text, "variant": nb.sp.Text, "rule": nb.sp.Rules[0].Text}, "accept", nb.check.String(),
+						"the same enum as a named rule (one rule object, second schema using it) is refused by Check")
+				} else {
+					variants = append(variants, nb)
+					c.Count("rule sets also judged through a shared named enum rule", 1)
+				}
+			}
+		}
 		seen := map[string]bool{}
 		for _, p := range sc.Probes {
 			doc := p.Text()
@@ -264,6 +280,11 @@ func c02Run(c *mon.Ctx, unit int) {
 				c.Eval(1)
 				c.Count("inertness comparisons", 1)
 				if vo.Verdict() != obs.Verdict() {
+					if len(vb.sp.Rules) > 0 {
+						c.Violate("enum-named", map[string]any{"schema": text, "variant": vb.sp.Text, "rule": vb.sp.Rules[0].Text, "doc": doc}, "same verdict",
+							fmt.Sprintf("inline list: %s; named rule: %s", obs, vo), "a schema sharing a named enum rule object judges differently from the inline list")
+						continue
+					}
 					c.Violate("inert", map[string]any{"schema": text, "variant": vb.sp.Text, "doc": doc}, "same verdict",
 						fmt.Sprintf("without: %s; with the false-valued rule: %s", obs, vo), "a false-valued rule is not inert")
 				}
@@ -273,6 +294,52 @@ func c02Run(c *mon.Ctx, unit int) {
 			c.Sample("rule set with probes", map[string]any{"schema": text, "probes": len(seen), "first_probe": sc.Probes[0].Text()})
 		}
 	}
+}
+
+// c02SharedNamedEnum: the node with {enum: @E}; the rule text lists the values one per line with
+// comment lines between them; one rule object is added to a first schema (checked and dropped)
+// and to a second one, which is returned.
+func c02SharedNamedEnum(n *model.Node, e *model.Rule, k int) *builtSchema {
+	var sb strings.Builder
+	sb.WriteString("[\n")
+	for i, it := range e.List {
+		if i > 0 && (i+k/2)%2 == 1 {
+			sb.WriteString([]string{"  // the next group\n", "  // {x} - more\n"}[k/2%2])
+		}
+		sb.WriteString("  " + it)
+		if i < len(e.List)-1 {
+			sb.WriteString(",")
+		}
+		sb.WriteString("\n")
+	}
+	sb.WriteString("]")
+	named := n.Clone()
+	for i, r := range named.Rules {
+		if r.Name == "enum" {
+			named.Rules[i] = model.REnumRef("@E")
+		}
+	}
+	sp := lib.Spec{Text: model.Canonical(named), Rules: []lib.RuleDef{{Name: "@E", Text: sb.String()}}}
+	return c02BuildShared(sp)
+}
+
+func c02BuildShared(sp lib.Spec) *builtSchema {
+	rule := enum.New("@E", sp.Rules[0].Text)
+	b := &builtSchema{sp: sp}
+	var second *jschema.Schema
+	for i := 0; i < 2; i++ {
+		sc := jschema.New("schema", sp.Text)
+		if o := lib.Safe(func() error { return sc.AddRule("@E", rule) }); !o.OK {
+			b.check = o
+			return b
+		}
+		b.check = lib.Safe(sc.Check)
+		second = sc
+	}
+	b.ok = b.check.OK
+	b.validate = func(doc string) lib.Obs { return lib.ValidateOn(second, doc) }
+	b.validateChecked = b.validate
+	return b
 }
 
 func init() {
@@ -320,6 +387,19 @@ func init() {
 					return o.String()
 				}
 				return "no panic"
+			},
+			"enum-named": func(raw json.RawMessage) string {
+				var m struct{ Schema, Variant, Rule, Doc string }
+				json.Unmarshal(raw, &m)
+				b := c02BuildShared(lib.Spec{Text: m.Variant, Rules: []lib.RuleDef{{Name: "@E", Text: m.Rule}}})
+				if m.Doc == "" || !b.ok {
+					return b.check.Verdict()
+				}
+				a := lib.Validate(lib.Spec{Text: m.Schema}, m.Doc)
+				if v := b.validate(m.Doc); v.Verdict() != a.Verdict() {
+					return fmt.Sprintf("inline list: %s; named rule: %s", a, v)
+				}
+				return "same verdict"
 			},
 			"inert-check": func(raw json.RawMessage) string {
 				var m struct{ Schema, Variant string }
